@@ -221,3 +221,6 @@ def _batch(env, cfg):
     env.claim(f"exception_propagates:{kind}", raised is not None, detail=site)
     _same_dict(env, f"importance_unchanged:{kind}", dict(ex.importance_values), snap, site)
     env.canary('crash_changes_nothing_is_not_vacuous', False)
+
+
+META['explanation'] += ' Further dimensions: exception type (Exception, StopIteration, KeyError, AttributeError, ZeroDivisionError, ValueError), sparse label outputs, two consecutive failing calls.'
